@@ -125,3 +125,24 @@ package samlsp
 //@ ensures[C17] length: len(result) == n
 //@ assert@call[C17] io.ReadFull #1 (r io.Reader, buf []byte) uses rv []byte fills_all_from_configured_source:
 //@    r == saml.RandReader && sameBytes(buf, rv) && len(buf) == n
+
+//@ -- C16: the gatekeeping function literals. RequireAccount$1 is the handler RequireAccount returns;
+//@ -- RequireAttribute$1$1 the handler returned by the middleware RequireAttribute returns.
+//@ contract (*Middleware).RequireAccount$1
+//@ requires[cfg] r: r != nil && r.URL != nil && w != nil
+//@ -- the wrapped handler runs only with the session the provider returned, placed in the request context
+//@ assert@call[C16] ServeHTTP #1 (h http.Handler, w2 http.ResponseWriter, r2 *http.Request) uses session Session serves_only_with_session:
+//@    session != nil
+//@ assert@call[C16] ContextWithSession #1 (ctx context.Context, s Session) uses session Session exposes_that_session:
+//@    s == session
+//@ -- no session: a new flow only for the "no session" error, every other error goes to the error handler
+//@ assert@call[C16] HandleStartAuthFlow #1 (mm *Middleware, w2 http.ResponseWriter, r2 *http.Request) uses session Session, err error flow_only_without_session:
+//@    session == nil && err == ErrNoSession
+
+//@ contract RequireAttribute$1$1
+//@ requires[cfg] r: r != nil && w != nil
+//@ -- admitted only with a session in the context whose attribute map lists the required value under the required name
+//@ assert@call[C16] ServeHTTP #1 (h http.Handler, w2 http.ResponseWriter, r2 *http.Request) uses session Session, v string, value string, ok bool admits_only_on_match:
+//@    session != nil && ok && v == value
+//@ assert@call[C16] GetAttributes #1 (sa SessionWithAttributes) uses session Session attributes_of_context_session:
+//@    sa == session.(SessionWithAttributes)
